@@ -98,7 +98,8 @@ def crawl_site(chk: Check, site: driver.Site, view: str, kind_of: typing.Dict[by
                         continue
                     chk.count("remote_or_url_links_not_followed")
                     continue
-                if fam == "http" and (e.selector == b"/wap" or e.selector.startswith(b"/wap/")):
+                wt = reqs.WAPTOP.rstrip("/").encode()
+                if fam == "http" and (e.selector == wt or e.selector.startswith(wt + b"/")):
                     # documented: over HTTP the waptop path *is* the WAP view of the site
                     chk.count("http_links_shadowed_by_waptop_not_followed")
                     continue
@@ -201,8 +202,12 @@ def main() -> int:
                     extra_names(rng, model)
                 root = sc.sub("root%d" % i)
                 model.tree.materialize(root)
+                # where the operator put the WAP view: the shipped /wap, the same with a slash at the end, elsewhere
+                waptop = ["/wap", "/wap/", "/wap", "/mobile/wml"][i % 4]
+                chk.count("sites_with_waptop:" + waptop)
                 for hl_name, hl in (("default", None), ("full", driver.HANDLERS_FULL)):
-                    site = driver.Site(root, handlers=hl)
+                    site = driver.Site(root, handlers=hl, overrides={("protocols.wap.WAPProtocol", "waptop"): waptop})
+                    reqs.WAPTOP = waptop
                     try:
                         kind_of: typing.Dict[bytes, str] = {}
                         for view in CRAWL_VIEWS:
@@ -210,6 +215,7 @@ def main() -> int:
                                 continue
                             crawl_site(chk, site, view, kind_of, "%s:site%d" % (hl_name, i))
                     finally:
+                        reqs.WAPTOP = "/wap"
                         site.close()
     return chk.finish(
         rule="case = one link taken from a listing the server produced and followed exactly as a client of that "
